@@ -467,7 +467,16 @@ def _getput_case(scr, part, x, y, w, h):
     part.classes.add('getput/%s' % cls)
     part.n += 1
     # GET must not change the screen
-    if not _run(scr, part, b'GET (%d,%d)-(%d,%d),A%%' % (x, y, x + w - 1, y + h - 1), 'get', case):
+    # (the two corners in any of the four orders, rotating with the rectangle)
+    xa, ya, xb, yb = x, y, x + w - 1, y + h - 1
+    order = (x + y + w + h) % 4
+    if order & 1:
+        xa, xb = xb, xa
+    if order & 2:
+        ya, yb = yb, ya
+    case['corner_order'] = order
+    part.classes.add('getput/corner-order-%d' % order)
+    if not _run(scr, part, b'GET (%d,%d)-(%d,%d),A%%' % (xa, ya, xb, yb), 'get', case):
         return
     d = scr.diff()
     if d:
